@@ -15,7 +15,7 @@ pub const C33: Check = Check {
     id: "C33",
     level: "fault_enumeration",
     rule: "in-process server stepping with histories of successful and failed runs (forced retryable / fatal outcome at the \
-           run's entry via fault hook; natural mid-run failures are driven by the C23/C41 world legs). Around every failed \
+           run's entry via fault hook; on half of the shards also natural mid-run failures: the real engine inside the server step hits a directory where a stored point file is expected while the repositories offer new data). Around every failed \
            run the harness records at the real listeners: RTR reset answer (state + full set), RTR serial-query answer, \
            GET /json body + ETag + Last-Modified, /json-delta reset and delta documents, the RTR and /json-delta answers for every serial the history retains a change set for (and one older), /json-delta/notify of a parked \
            subscriber. Oracle: all of them are byte-/set-identical before and after the failed run, the subscriber did \
@@ -79,7 +79,64 @@ fn observe(srv: &TestServer, crt: &tokio::runtime::Runtime, from: u32) -> Result
     })
 }
 
+/// Natural mid-run failure: the real engine runs inside the server step and hits a fatal I/O error (a directory where
+/// a stored publication point file is expected) while the repositories offer changed data.
+fn natural_failure_leg(ctx: &mut Ctx, rep: &mut Report) {
+    use crate::world::build::Builder;
+    use crate::world::run::Env;
+    use crate::world::spec::{generate, GenParams};
+    let mut rng = ctx.rng("c33-natural");
+    let mut b = match Builder::new() { Ok(b) => b, Err(e) => { rep.inconclusive(e); return } };
+    let crt = tokio::runtime::Builder::new_current_thread().enable_all().build().unwrap();
+    let n = ctx.tier.pick(3usize, 40);
+    for i in 0..n {
+        if !ctx.time_left() { break }
+        let params = GenParams { tals: 1, max_cas: 3 + rng.usize(3), max_depth: 2, max_objects: 2 + rng.usize(3), repos: 2, ..GenParams::default() };
+        let w0 = generate(&mut rng, chrono::Utc::now().timestamp(), &params);
+        let w1 = crate::props::hist::evolve(&w0, 0, &mut rng, crate::props::hist::Emphasis::Ordering);
+        let mut env = Env::new(&ctx.scratch.join("env-natural"));
+        env.config.validation_threads = 1;
+        env.config.history_size = 5;
+        env.serve(&b.publish(&w1));
+        let mut srv = match TestServer::start_with_config(env.config.clone(), true) { Ok(s) => s, Err(e) => { rep.inconclusive(format!("server start: {e}")); return } };
+        if srv.process_once(false).is_err() { rep.inconclusive("first real run failed"); continue }
+        let serial_now = u32::from(srv.history.read().serial());
+        let before = match observe(&srv, &crt, serial_now) { Ok(s) => s, Err(e) => { rep.inconclusive(format!("observe: {e}")); continue } };
+        // the repositories move on (every CA gets a new version) ...
+        let mut w2 = w1.clone();
+        for k in 1..3 { w2 = crate::props::hist::evolve(&w2, k, &mut rng, crate::props::hist::Emphasis::Ordering); }
+        env.serve(&b.publish(&w2));
+        // ... and the store is damaged: a directory where a stored point file is expected
+        let cache = env.dir.join("cache");
+        let mut points: Vec<std::path::PathBuf> = Vec::new();
+        fn rec(p: &std::path::Path, out: &mut Vec<std::path::PathBuf>) { if let Ok(rd) = std::fs::read_dir(p) { for e in rd.flatten() { let p = e.path(); if p.is_dir() { rec(&p, out) } else if p.extension().map(|x| x == "mft").unwrap_or(false) { out.push(p) } } } }
+        rec(&cache.join("stored"), &mut points);
+        points.sort();
+        if points.len() < 2 { rep.inconclusive("no stored points to damage"); continue }
+        // not the first one visited (the trust anchor's), so that part of the tree is processed before the error
+        let victim = points[1 + rng.usize(points.len() - 1)].clone();
+        let aside = cache.join("aside.bin");
+        if std::fs::rename(&victim, &aside).is_err() || std::fs::create_dir(&victim).is_err() { rep.inconclusive("could not damage the store"); continue }
+        crate::caplog::install(log::LevelFilter::Warn); crate::caplog::clear();
+        ctx.begin_case(&json!({"leg": "natural-failure", "case": i}));
+        let res = srv.process_once(false);
+        let hit = crate::caplog::take().iter().any(|l| l.1.contains(&victim.display().to_string()));
+        let _ = std::fs::remove_dir_all(&victim); let _ = std::fs::rename(&aside, &victim);
+        rep.eval();
+        if !hit { rep.note("the damaged stored point was not visited; case not judged"); rep.class("natural|not-visited"); continue }
+        let after = match observe(&srv, &crt, serial_now) { Ok(s) => s, Err(e) => { rep.inconclusive(format!("observe: {e}")); continue } };
+        let replay = json!({"leg": "natural-failure", "world": w2, "damaged": victim.display().to_string(), "seed": ctx.seed, "shard": ctx.shard});
+        rep.count("natural_failures_judged", 1);
+        if before != after {
+            rep.violation(format!("C33/served-data-changed/natural-failure/run-{}", if res.is_ok() { "reported-success" } else { "failed" }), format!(
+                "a run that hit a fatal error on {} ({}) changed what is served: serial {:?} -> {:?}", victim.display(), if res.is_ok() { "and nevertheless reported success" } else { "and failed" }, before.rtr_state, after.rtr_state), replay);
+        }
+        rep.class(format!("natural|visited|run-{}", if res.is_ok() { "ok" } else { "err" }));
+    }
+}
+
 fn run_c33(ctx: &mut Ctx, rep: &mut Report) {
+    if ctx.shard % 2 == 1 { natural_failure_leg(ctx, rep); }
     let hooks = Hooks::install();
     hooks.set_record(false);
     let mut rng = ctx.rng("c33");
